@@ -61,7 +61,8 @@ inline void rd_well(const Opm::Well& w, const Opm::SummaryState& st, JW& out) {
     out.kv_b("prediction", w.predictionMode()).kv_d("efficiencyFactor", w.getEfficiencyFactor());
     out.kv_d("guideRate", w.getGuideRate()).kv_i("guideRatePhase", (int)w.getRawGuideRatePhase());
     out.kv_d("guideRateScaling", w.getGuideRateScalingFactor()).kv_b("availableForGroupControl", w.isAvailableForGroupControl());
-    out.kv_i("vfpTable", w.vfp_table_number()).kv_d("alq", w.alq_value(st));
+    out.kv_i("vfpTable", w.vfp_table_number());
+    if (w.isProducer()) out.kv_d("alq", w.alq_value(st));
     out.kv_i("preferredPhase", (int)w.getPreferredPhase()).kv_b("crossFlow", w.getAllowCrossFlow());
     out.kv_b("autoShutin", w.getAutomaticShutIn()).kv_d("drainageRadius", w.getDrainageRadius());
     out.kv_d("solventFraction", w.getSolventFraction()).kv_i("seqIndex", w.seqIndex()).kv_b("msw", w.isMultiSegment());
@@ -171,6 +172,19 @@ inline void rd_group(const Opm::Group& g, const Opm::SummaryState& st, JW& out) 
                 .kv_d("guide_rate", c.guide_rate).kv_i("guide_rate_def", (int)c.guide_rate_def).end_obj();
         });
     }
+    out.key("injControls").obj();
+    for (const auto& [phase, p] : g.injectionProperties()) {
+        const char* pn = phase == Opm::Phase::WATER ? "WATER" : phase == Opm::Phase::GAS ? "GAS" : "OIL";
+        const auto ph = phase;
+        rd_try(out, pn, [&](JW& o) {
+            const auto c = g.injectionControls(ph, st);
+            o.obj().kv_i("cmode", (int)c.cmode).kv_d("surface_max_rate", c.surface_max_rate).kv_d("resv_max_rate", c.resv_max_rate)
+                .kv_d("target_reinj_fraction", c.target_reinj_fraction).kv_d("target_void_fraction", c.target_void_fraction)
+                .kv_i("controls", c.injection_controls).kv_s("reinj_group", c.reinj_group).kv_s("voidage_group", c.voidage_group)
+                .kv_d("guide_rate", c.guide_rate).kv_i("guide_rate_def", (int)c.guide_rate_def).end_obj();
+        });
+    }
+    out.end_obj();
     out.key("inj").obj();
     for (const auto& [phase, p] : g.injectionProperties()) {
         out.key(phase == Opm::Phase::WATER ? "WATER" : phase == Opm::Phase::GAS ? "GAS" : "OIL").obj();
